@@ -19,7 +19,7 @@ RULE = ("generated pairs (a, b=a+delta) with delta = tol*(1+-eps), eps in {1e-6,
 ASSUMPTIONS = ["vf/units_ref.py table for unit values", "exact rational arithmetic for the reference predicate"]
 N = {"quick": 6400, "thorough": 112000}
 MIN_REACH = {"quick": {"zero_relative_tolerance": 100, "must_pass": 1500, "must_fail": 1500, "complex": 800, "dimension_mismatch": 300, "swap": 500,
-                       "respell": 500, "bare_number": 200, "vector": 200, "vector_length_mismatch": 50},
+                       "respell": 500, "bare_number": 200, "vector": 200, "vector_length_mismatch": 50, "foreign_dimension": 100},
              "thorough": {"must_pass": 25000, "must_fail": 25000}}
 SHARD_TIMEOUT = {"quick": 300, "thorough": 2400}
 
@@ -253,12 +253,52 @@ def run_case(c, rec, r):
         rec.sample(dict(c, reference=verdict, observed=o1[0]))
 
 
+def foreign_dimension_cases(rec, r):
+    """dimensions outside the seven SI base ones (information; a user-defined Dimension): inequivalent to everything but
+    themselves, whatever the numbers"""
+    import sympy
+    from sympy.physics import units as U
+    from sympy.physics.units import Dimension
+    from symplyphysics import Quantity, assert_equal
+    from symplyphysics.core import approx
+    info = {"bit": 1, "byte": 8, "kibibyte": 8192}
+    money = Dimension("money")
+    for _ in range(30):
+        a, b = r.choice(list(info)), r.choice(list(info))
+        n = r.randint(1, 500)
+        qa = Quantity(n * info[b] * getattr(U, a))       # = n*info[a]*info[b] bit
+        qb = Quantity(n * info[a] * getattr(U, b))       # the same amount of information written in the other unit
+        c = {"foreign": f"{n * info[b]} {a} vs {n * info[a]} {b}"}
+        rec.case(("foreign", str(c)))
+        rec.hit("foreign_dimension")
+        o = observe(lambda: assert_equal(qa, qb))
+        if o[0] != "return":
+            rec.violation("rejects-in-tolerance:information", f"assert_equal rejected equal amounts of information {c}: {o}", c)
+        sf = qa.scale_factor
+        twins = [("a dimensionless quantity", Quantity(sf)), ("a frequency", Quantity(sf * U.hertz)), ("a bare number", float(sf)),
+                 ("a user-defined dimension", Quantity(sf, dimension=money))]
+        for label, other in twins:
+            rec.hit("dimension_mismatch")
+            for x, y, nm in ((qa, other, "lhs"), (other, qa, "rhs")):
+                if isinstance(x, float):
+                    continue
+                o2 = observe(lambda: assert_equal(x, y))
+                if o2[0] == "return":
+                    rec.violation("accepts-dimension-mismatch:information", f"assert_equal accepted a quantity of information ({nm}) against {label} with the same number: {c}", c)
+                if not isinstance(y, float):
+                    o3 = observe(lambda: approx.approx_equal_quantities(x, y))
+                    if o3 == ("return", True):
+                        rec.violation("accepts-dimension-mismatch:information:approx_equal_quantities", f"approx_equal_quantities accepted a quantity of information ({nm}) against {label}: {c}", c)
+
+
 def work(spec, rec):
     if spec.get("kind") == "suite":
         harness.run_suite("C08", harness.SUITE_QUICK if spec["tier"] == "quick" else harness.SUITE_FULL, rec)
         rec.case(("suite", spec["tier"]))
         return
     r = harness.rng_for("C08", spec["seed"], spec["shard"])
+    if spec["shard"] < 4:
+        foreign_dimension_cases(rec, r)
     for i in range(spec["cases"]):
         rec.checkpoint()
         c = gen_case(r)
